@@ -259,8 +259,11 @@ def run(ctx):
                 r8.violate("C02|R8|%s|%s" % (pfn.def_, cls), "%s, segment %r: %s" % (pfn.def_, cls, why), pfn.file, line, pfn.def_)
     if len(orders) == 2:
         a, b = list(orders.values())
-        ok = a == b
-        r1.instance({"order_production_vs_legacy_equal": ok, "order": a}, ok)
+        # the controllers both dispatchers know are tried in the same relative order (one of them may know a controller the
+        # other does not: a feature registered with the production dispatcher only)
+        common = [c_ for c_ in a if c_ in b]
+        ok = common == [c_ for c_ in b if c_ in a] and len(common) >= 5
+        r1.instance({"order_production_vs_legacy_equal_on_common_controllers": ok, "order": a, "only_in_one": sorted(set(a) ^ set(b))}, ok)
         if not ok:
             r1.violate("C02|R1|order-disagreement", "the two dispatchers test controllers in different orders: %s vs %s" % (a, b))
 
